@@ -211,13 +211,17 @@ func c13LoadViaRPC(c *c13Case, n int) (*DataStreamProcessor, *vVerdict) {
 			select {
 			case f := <-sc.queuedRequests:
 				f()
-			case <-time.After(5 * time.Second):
+			case <-time.After(60 * time.Second):
 			}
 		}()
 		var ok bool
 		err := sc.ConfigureProjectorsBasis(&ProjectorsBasisObject{ChannelIndex: 0, ProjectorsBase64: base64.StdEncoding.EncodeToString(pb),
 			BasisBase64: base64.StdEncoding.EncodeToString(bb), ModelDescription: what}, &ok)
-		<-done
+		select { // (a request refused before it was queued leaves the stand-in core loop waiting: release it)
+		case <-done:
+		case sc.queuedRequests <- func() {}:
+			<-done
+		}
 		if err != nil {
 			v := vFailf("projectors-rejected", "%s: compatible projectors %dx%d / basis %dx%d sent through the RPC method are rejected: %v", what, nb, n, n, nb, err)
 			return &v
